@@ -9,7 +9,7 @@ cases = sys.argv[2] if len(sys.argv) > 2 else '100000'
 only = sys.argv[3] if len(sys.argv) > 3 else ''
 mod = importlib.import_module('vgen.' + prop)
 plan = mod.plan('quick', 1)
-units = [u for u in plan['units'] if u.cfg == 'gxx']
+units = [u for u in plan['units'] if u.cfg == os.environ.get('SURVEY_CFG', 'gxx')]
 verif.build_units(units)
 os.makedirs('/verif/build/survey', exist_ok=True)
 def one(u):
